@@ -527,11 +527,12 @@ def get_default_initial_values(
 
 
 def new_fluent_name(problem: Problem, name: str) -> str:
-    """Returns `name` if it is not already used by a fluent of `problem`, otherwise
+    """Returns `name` if it is not already used in the `problem` (by a fluent or by anything
+    else: names are shared by fluents, objects, actions and user types), otherwise
     the first `f"{name}_{i}"` (for increasing ``i`` starting at 0) that is free."""
     new_name = name
     i = 0
-    while problem.has_fluent(new_name):
+    while problem.has_name(new_name):
         new_name = f"{name}_{i}"
         i += 1
     return new_name
